@@ -1412,3 +1412,37 @@ Lemma refused_and_missing_directories_spawn_nothing :
   /\ child_env [] cwdleak_env (mkSpawn (VTask (Some XPipes)) (Some (lit "..hidden/x..")) true None None) = Some [(lit "HOME", lit "/home/u")]
   /\ child_env [] cwdleak_env (mkSpawn (VTask (Some XPty)) (Some (lit "nope/missing")) false None None) = Some [(lit "HOME", lit "/home/u")].
 Proof. vm_compute. repeat split; reflexivity. Qed.
+
+(* T1: a site whose steps are the modelled ones IS the model's site; the step list the extractor reads off the seeded change
+   C19-8 is the site that does not strip when `cwd` is given *)
+Lemma sstep_code_inj a b : sstep_code a = sstep_code b -> a = b.
+Proof. destruct a, b; cbn; intros H; try reflexivity; discriminate. Qed.
+Lemma map_sstep_code_inj p : forall p', map sstep_code p = map sstep_code p' -> p = p'.
+Proof.
+  induction p as [|a p IH]; intros [|b p'] H; try discriminate; [reflexivity|].
+  cbn [map] in H. injection H as H1 H2. apply sstep_code_inj in H1. subst b. f_equal. apply IH. exact H2.
+Qed.
+Lemma steps_as_modelled_sound p : steps_as_modelled p = true -> p = modelled_steps.
+Proof. unfold steps_as_modelled. intros H. apply lN_eqb_spec in H. apply map_sstep_code_inj. exact H. Qed.
+Lemma modelled_steps_run m r e q : run_steps modelled_steps m r q (cmd_new e) = site_cmd true m r e q.
+Proof.
+  unfold modelled_steps, site_cmd, strip_cmd. cbn [run_steps]. destruct (sp_cwd q) as [raw|]; [|reflexivity].
+  destruct (cwd_refused raw); reflexivity.
+Qed.
+Lemma cwd_else_strip_steps_run m r e q :
+  run_steps [SCwd; SStripIfNoCwd; SOwnEnv; SSpawn] m r q (cmd_new e) = site_cmd false m r e q.
+Proof.
+  unfold site_cmd, strip_cmd. cbn [run_steps]. destruct (sp_cwd q) as [raw|]; [|reflexivity].
+  destruct (cwd_refused raw); reflexivity.
+Qed.
+Lemma site_steps_wf_sound g : site_steps_wf g = true ->
+  map fst g = modelled_spawn_sites
+  /\ Forall (fun s => forall m r e q, run_steps (snd s) m r q (cmd_new e) = site_cmd true m r e q) g.
+Proof.
+  unfold site_steps_wf. intros H. apply andb_true_iff in H. destruct H as [H1 H2]. split.
+  - refine (proj1 (list_eqb_spec (fun a b : str * str => str_eqb (fst a) (fst b) && str_eqb (snd a) (snd b)) _ _ _) H1).
+    intros [a1 a2] [b1 b2]. cbn [fst snd]. rewrite andb_true_iff, !str_eqb_eq.
+    split; [intros [-> ->]; reflexivity | intros E; injection E as -> ->; split; reflexivity].
+  - apply Forall_forall. intros s I m r e q. rewrite forallb_forall in H2. rewrite (steps_as_modelled_sound _ (H2 s I)).
+    apply modelled_steps_run.
+Qed.
